@@ -545,6 +545,9 @@ func valString(v ssa.Value) string {
 		if x.IsNil() {
 			return "nil"
 		}
+		if x.Value == nil {
+			return "zero"
+		}
 		return x.Value.String()
 	case *ssa.Extract:
 		if c, ok := x.Tuple.(*ssa.Call); ok {
